@@ -76,6 +76,13 @@ def dispatch (op : String) (args obs : List String) : Outcome :=
   | "EQ" => opEQ args obs
   | "ET" => opET args obs
   | "ETD" => opETD args obs
+  | "CID" =>
+    match opCID args obs with
+    | some d =>
+      { corr := match d.corr with | none => .ok | some w => .bad w,
+        prop := if d.fails.isEmpty then .ok else .bad (" ; ".intercalate d.fails),
+        branch := d.branch }
+    | none => { corr := .bad "bad-line" }
   | "CHUNK" =>
     match opCHUNK args obs with
     | some d =>
